@@ -7,6 +7,7 @@ import (
 	"sync"
 	"time"
 
+	"github.com/StephenButtolph/canoto"
 	"github.com/ava-labs/avalanchego/utils/logging"
 	"github.com/ava-labs/avalanchego/utils/timer"
 	"go.uber.org/zap"
@@ -98,7 +99,8 @@ func (m *MessageBuffer) Send(msg []byte) error {
 		return ErrClosed
 	}
 
-	l := len(msg)
+	// Account for the size of [msg] once it is encoded in a batch message
+	l := len(canoto__BatchMessage__Messages__tag) + int(canoto.SizeBytes(msg))
 	if l > m.maxSize {
 		return ErrMessageTooLarge
 	}
